@@ -312,7 +312,7 @@ func c09dirTemplates(c *h.Ctx, idx int, fromSub bool) {
 	defer os.RemoveAll(dir)
 	real, _ := filepath.EvalSymlinks(dir)
 	trace := real + "/trace"
-	for _, d := range []string{"svc/api", "svc/web", "svc/db", "sub/deeper"} {
+	for _, d := range []string{"svc/api", "svc/web", "svc/db", "svc/elsewhere", "sub/deeper"} {
 		os.MkdirAll(real+"/"+d, 0o755)
 	}
 	pw := func(tag string) string {
@@ -333,12 +333,20 @@ func c09dirTemplates(c *h.Ctx, idx int, fromSub bool) {
 			gen.OM{{K: "name", V: "three"}, {K: "task", V: "own-db"}, {K: "depends_on", V: []interface{}{"two"}}},
 		}}}},
 	}
+	var setArgs []string
+	if idx%2 == 0 {
+		// the name also has a value at the lowest levels (configuration, --set): the task's and the stage's still decide
+		cfg = append(gen.OM{{K: "variables", V: gen.OM{{K: "Svc", V: "elsewhere"}}}}, cfg...)
+		if idx%4 == 0 {
+			setArgs = []string{"--set", "Svc=elsewhere"}
+		}
+	}
 	h.WriteFile(real+"/tasks.yaml", gen.YAML(cfg))
 	cwd := real
 	if fromSub {
 		cwd = real + "/sub/deeper"
 	}
-	res := tc{Dir: cwd}.run(c, "-o", "raw", "p")
+	res := tc{Dir: cwd}.run(c, append(setArgs, "-o", "raw", "p")...)
 	c.Eval(1)
 	got := lines(h.ReadFile(trace))
 	cas := map[string]interface{}{"yaml": gen.YAML(cfg), "cwd": cwd, "trace": got, "exit": res.Exit, "stderr": tail(stripANSI(string(res.Stderr)), 400)}
@@ -346,16 +354,17 @@ func c09dirTemplates(c *h.Ctx, idx int, fromSub bool) {
 		c.Violate("dir-run-failed", fmt.Sprintf("exit %d, trace %v", res.Exit, got), cas)
 		return
 	}
-	for _, ln := range got {
+	for li, ln := range got {
 		for k, v := range parseKV(ln) {
-			svc := k[strings.IndexByte(k, ':')+1:]
+			// (the stages form a chain: three lines each, in this order)
+			svc := []string{"api", "web", "db"}[li/3]
 			c.Count("pwd_checked", 1)
-			if v != real+"/svc/"+svc {
+			if v != real+"/svc/"+svc || !strings.HasSuffix(k, ":"+svc) {
 				c.Violate("dir-precedence/template-rendered-with-other-values", fmt.Sprintf("%s ran in %q, its dir template renders to %q", k, v, real+"/svc/"+svc), cas)
 			}
 		}
 	}
-	c.Nontrivial(fmt.Sprint("dirtemplate", fromSub))
+	c.Nontrivial(fmt.Sprint("dirtemplate", fromSub, idx%4))
 }
 
 func c09(c *h.Ctx) {
@@ -399,7 +408,7 @@ func c09(c *h.Ctx) {
 			}
 		}
 	}
-	jobs = append(jobs, func() { c09dirTemplates(c, 0, false) }, func() { c09dirTemplates(c, 1, true) })
+	jobs = append(jobs, func() { c09dirTemplates(c, 0, false) }, func() { c09dirTemplates(c, 1, true) }, func() { c09dirTemplates(c, 2, true) }, func() { c09dirTemplates(c, 3, false) })
 	for m := 0; m < c.N(60, 1500); m++ {
 		m := m
 		jobs = append(jobs, func() { c09multi(c, m, h.NewRand(c.Seed*7919+int64(m), "c09multi")) })
